@@ -543,6 +543,17 @@ def parse_equation_terms(equation: str) -> List[Term]:
         # to print the expression that failed
         raise ParserError(f"Failed to parse right-hand side of: '{equation}'") from e
 
+    # An equation assigns to exactly one variable: anything else would
+    # contribute no equation at all, or the same equation several times
+    lhs_variables = [x for x in lhs_terms if x.type == Type.ENDOGENOUS]
+    if len(lhs_variables) != 1 and not any(
+        x.type in (Type.KEYWORD, Type.VERBATIM) for x in lhs_terms
+    ):
+        raise ParserError(
+            f'Expected exactly one variable on the left-hand side '
+            f"but found {len(lhs_variables)} in: '{equation}'"
+        )
+
     if any(filter(lambda x: x.type == Type.KEYWORD, lhs_terms)) or any(
         filter(lambda x: x.type == Type.INVALID, rhs_terms)
     ):
